@@ -214,11 +214,21 @@ def handleDescriptives (op : String) (inp : Json) (impl : Option Json) : R (Opti
     let c ← optFldD inp "c" getRat 0
     let initial ← optFldD inp "initial" getOptRat none
     let clean := a.filterMap id
+    -- the implementation's base value, when given (the slack is only worked out when it differs from the model's)
+    let implV : Option Rat := match impl with
+      | some ij => (match ij.getObjVal? "v" with
+        | .ok vj => (match getOptRat vj with | .ok v => v | .error _ => none)
+        | .error _ => none)
+      | none => none
     -- model
     let (outJ, slack, extraErr) ← (match name with
       | "biweight_location" =>
-        pure (optRatT (biweightLocation a initial pre),
-              (if clean.length ≥ 2 then bilocSlack pre clean initial else 1), ([] : List String))
+        let m := biweightLocation a initial pre
+        let agrees := match m, implV with
+          | some x, some y => closeQ y x
+          | _, _ => false
+        pure (optRatT m,
+              (if clean.length ≥ 2 && !agrees then bilocSlack pre clean initial else 1), ([] : List String))
       | "modal_location" => do
         if clean.length ≤ 1 then pure (optRatJ (onArray none (fun _ => none) a), (1 : Rat), [])
         else if allEqual clean then
@@ -319,7 +329,17 @@ def handleDescriptives (op : String) (inp : Json) (impl : Option Json) : R (Opti
       | "gapper" => pure (unweighted (fun l => .direct (gapperCore l)), (1 : Rat), [])
       | "qn" => pure (unweighted (fun l => .direct (qnCore l)), (1 : Rat), [])
       | "bivar" =>
-        let sl : Rat := if clean.length ≥ 2 then
+        let implV : Option Rat := match impl with
+          | some ij => (match ij.getObjVal? "v" with
+            | .ok vj => (match getOptRat vj with | .ok v => v | .error _ => none)
+            | .error _ => none)
+          | none => none
+        let res : Option ScaleOut := if clean.length ≥ 2 then some (bivarCore pre clean initial) else none
+        let agrees := match res, implV with
+          | some (.direct x), some y => closeQ y x
+          | some (.root x), some y => closeQ (y * y) x x
+          | _, _ => false
+        let sl : Rat := if clean.length ≥ 2 && !agrees then
             let init := initial.getD (biweightLocationCore pre clean none)
             let d := clean.map (· - init)
             let s := max (Generated.BIVAR_C * Desc.median (d.map absR)) Generated.BIVAR_EPS
@@ -327,7 +347,7 @@ def handleDescriptives (op : String) (inp : Json) (impl : Option Json) : R (Opti
             min (if initial.isSome then 1 else bilocSlack pre clean none)
               (min (absQ ((kept.map (· / s)).sum)) ((d.map (fun x => absQ (absR (x / s) - 1))).foldl min 1))
           else 1
-        pure (unweighted (fun l => bivarCore pre l initial), sl, [])
+        pure (unweighted (fun l => (res.getD (bivarCore pre l initial))), sl, [])
       | "wmad" | "wstd" => do
         if a.length ≠ w.length then pure (errJ "ValueError", (1 : Rat), []) else
         match p with
